@@ -354,7 +354,7 @@ pub fn run(ctx: &Ctx) -> Report {
          reference encoder, compared byte for byte, and reference bytes parsed by the library and read back through accessors; \
          plus the complete numeric tables; non-trivial = optional field/property/boundary length; distinct by encoded bytes",
     );
-    let n = ctx.tier.pick(24_000, 400_000);
+    let n = ctx.tier.pick(150_000, 3_000_000);
     let (st, v) = search(ctx, "c03.differential", n, case_strategy, test);
     rep.absorb("differential", st, v, false);
     let mut st = Stats::default();
